@@ -44,7 +44,7 @@ def run_theme(ctx, theme, containers, scripting, n, listed, tag, simulate=None):
     """simulate = (num behaviours, depth): TLC -simulate draws random fragment strings much longer than the exhaustive bound"""
     if simulate:
         r = ctx.tlc("MC_Tree", cfg(theme, containers, scripting, simulate[1], True, listed), tag, keep_records=False, heap="16g",
-                    simulate="num=%d" % simulate[0], depth=simulate[1] + 1, seed=ctx.seed, workers=8)
+                    simulate="num=%d" % simulate[0], depth=simulate[1] + 1, seed=ctx.seed, workers=1)
     else:
         r = ctx.tlc("MC_Tree", cfg(theme, containers, scripting, n, True, listed), tag, keep_records=False, heap="16g")
     if r.violated:
@@ -305,8 +305,10 @@ def run(ctx):
         run_theme(ctx, theme, cont, scr, n, spec_listed, "mc-%s-%s-%d-%d" % (theme, cont, int(scr), n))
     ctx.exhaustive = True
     # random deep behaviours (TLC -simulate) over the union alphabet and two themes
-    for theme, cont, num, depth in (("cover", "doc", 400 if q else 6000, 9), ("table", "common", 200 if q else 3000, 8),
-                                    ("foreign", "doc", 200 if q else 3000, 8)):
+    # (TLC's simulator evaluates the invariants - and so exports - on every successor it generates: the number of
+    #  behaviours is about num x depth x alphabet size)
+    for theme, cont, num, depth in (("cover", "doc", 10 if q else 400, 9), ("table", "common", 8 if q else 250, 8),
+                                    ("foreign", "doc", 8 if q else 250, 8)):
         run_theme(ctx, theme, cont, False, depth, spec_listed, "sim-%s-%s" % (theme, cont), simulate=(num, depth))
     # transition cover (spec-derived tests, judged by TLC with snapshots)
     cjobs = cover_tests(ctx, spec_listed)
